@@ -131,6 +131,12 @@ func supervise(prop, tier string, seed int64) int {
 		cls += ":exit-from-inside-a-call"
 	}
 	run := core.NewRun(prop, tier, seed)
+	switch prop { // the level the evidence record is kept at (as the check itself sets it)
+	case "C09":
+		run.Level = "fault_enumeration"
+	case "C19":
+		run.Level = "translation_validation"
+	}
 	run.Rule = "supervisor: the check process did not reach its summary"
 	c := &core.Case{Kind: "crash", Text: crash, Extra: map[string]string{"tier": tier, "how_to_replay": "the check is deterministic for a given VERIF_SEED: run it again (./check " + prop + " " + tier + ")"}}
 	run.Violation(cls, c, "every call of the code under test returns a result or an error to its caller", why+": "+first)
